@@ -141,15 +141,25 @@ def dec_events(tier, seed, rep):
             if len(set(map(tuple, o['tolb']))) > 1 and not any(t[0] < 0 for t in o['tolb']):
                 pass  # becomes a complete dictionary: fine
             which = rng.choice(['svd', 'svd3', 'svdc', 'eigh'])
+            if len(sp) == 2 and rng.random() < 0.3:
+                o['Dblk'] = rng.choice([[1, 2], [2, 1], [1, INF], [3, 1], [2, 3]])     # a dictionary with DIFFERENT limits in the two sectors
+            # partial-SVD policy: only k = D_block[sector] triples are computed per block before the mask is applied, so the dictionary lookup of svd() itself matters
+            # (the library states its precondition: 'lowrank policy in svd requires passing argument D_block', i.e. some finite limit)
+            policy = 'lowrank' if which != 'eigh' and rng.random() < 0.5 and any(d not in (INF, MISSING) for d in o['Dblk']) else 'fullrank'
             sU, nU = rng.choice((1, -1)), rng.choice((True, False))
             # charge of the new (spectrum) leg for the sector with row charge c: dictionary options are keyed by it
             shift = 1 if (which == 'svd3' and not nU) else 0
             chS = [(-sU * (c[0] + shift),) for c in ch]
             kw = kwargs_of(o, chS)
             try:
+                wh = None
                 if which == 'eigh':
                     a = known_matrix(cfg, sp, ch, rng, herm=True)
-                    S, U = yastn.linalg.eigh_with_truncation(a, axes=(0, 1), sU=sU, which=rng.choice(['LR', 'LM']), **kw)
+                    wh = rng.choice(['LR', 'LM', 'SM', 'SR'])
+                    if wh in ('SM', 'SR'):
+                        # smallest magnitude / smallest real part first: the library asks for tol = tol_block = -inf there; only the D limits bind
+                        kw = dict(kw, tol=-float('inf'), tol_block=-float('inf'))
+                    S, U = yastn.linalg.eigh_with_truncation(a, axes=(0, 1), sU=sU, which=wh, **kw)
                     rec = U @ S @ U.H
                     ref = a
                 else:
@@ -157,10 +167,10 @@ def dec_events(tier, seed, rep):
                     ref = a
                     if which == 'svd3':   # rank-3 operand with non-zero total charge; sectors of the spectrum are unchanged
                         ref = a.add_leg(axis=0, s=1, t=(1,))
-                        U, S, V = yastn.linalg.svd_with_truncation(ref, axes=((0, 1), 2), sU=sU, nU=nU, **kw)
+                        U, S, V = yastn.linalg.svd_with_truncation(ref, axes=((0, 1), 2), sU=sU, nU=nU, policy=policy, **kw)
                         rec = yastn.tensordot(U @ S, V, axes=(2, 0))
                     else:
-                        U, S, V = yastn.linalg.svd_with_truncation(a, axes=(0, 1), sU=sU, **kw)
+                        U, S, V = yastn.linalg.svd_with_truncation(a, axes=(0, 1), sU=sU, policy=policy, **kw)
                         rec = U @ S @ V
             except Exception as e:  # noqa
                 rep.violation('dec-raise:%s:%s' % (which, type(e).__name__), '%s_with_truncation raised %s on sp=%s opts=%s' % (which, type(e).__name__, sp, o),
@@ -187,8 +197,27 @@ def dec_events(tier, seed, rep):
                 marginal += 1
             if not okround:
                 err2 = -2   # a kept singular value is not the prescribed integer / sector mismatch: rejected by the trace spec
-            evs.append({'op': which, 'sp': sp, 'o': o, 'kept': kept, 'err2': err2, 'sU': sU, 'nU': nU})
+            if wh in ('SM', 'SR'):
+                # the selection rule is applied to the weights -|v| (SM) / -v (SR): in the model an order-reversing integer map v -> 9 - v of the (positive) spectrum with
+                # non-binding tolerances; kept values and the discarded weight are translated the same way, the real reconstruction error is checked against the sum of
+                # the discarded squares here
+                disc = []
+                for c_, sec in enumerate(sp):
+                    rest = list(sec)
+                    for x in kept[c_]:
+                        if x in rest:
+                            rest.remove(x)
+                        else:
+                            okround = False
+                    disc += rest
+                true_ok = okround and abs(e2 - sum(x * x for x in disc)) < 1e-6
+                evs.append({'op': which, 'which': wh, 'sp': [[9 - v for v in sec] for sec in sp], 'o': dict(o, tol=[0, 1], tolb=[[0, 1] for _ in sp]),
+                            'kept': [sorted((9 - x for x in k_), reverse=True) for k_ in kept], 'err2': sum((9 - x) ** 2 for x in disc) if true_ok else -1, 'sU': sU, 'nU': nU})
+                continue
+            evs.append({'op': which, 'sp': sp, 'o': o, 'kept': kept, 'err2': err2, 'sU': sU, 'nU': nU, 'policy': policy})
     rep.cov['parts']['marginal_error_roundings'] = marginal
+    rep.cov['parts']['decompositions_by_kind'] = {k: sum(1 for e in evs if e['op'] + ':' + e.get('which', e.get('policy', '')) == k) for k in sorted({e['op'] + ':' + e.get('which', e.get('policy', '')) for e in evs})}
+    rep.cov['parts']['decompositions_with_different_limits_per_sector'] = sum(1 for e in evs if len({d for d in e['o']['Dblk'] if d != MISSING}) > 1)
     return evs
 
 
